@@ -57,7 +57,9 @@ func (cx *Ctx) runC07() {
 		fams[i] = fam
 	}
 	cx.phase("C07: main batch")
-	results := cx.sim.Run(jobs, nil)
+	// one fresh worker process per spec: the K resolutions of a spec run one after the other in that process, so that
+	// whatever is found replays exactly (no dependence on what a pooled worker did before)
+	results := cx.simFresh.Run(jobs, nil)
 	cx.phase("C07: analysing")
 	cx.slowest(results, 12)
 
@@ -234,15 +236,21 @@ func violKeys(cx *Ctx) []string {
 	return ks
 }
 
-// run one multi job with two resolutions and tell whether they differ
+// differs runs the call under two resolutions, each in a fresh worker process (so that nothing but the resolution
+// differs between the two executions), and tells whether the outcomes differ.
 func (cx *Ctx) differs(c spec.Call, a, b spec.Resolution, full bool) (bool, []spec.Outcome) {
-	job := &spec.Job{ID: 1, Kind: "multi", Calls: []spec.Call{c}, Res: []spec.Resolution{a, b}, Budgets: cx.Budgets, WantFull: full}
-	one := *cx.sim
-	one.N = 1
-	rs := one.Run([]*spec.Job{job}, nil)
-	ocs := cx.multiOutcomes(cx.sim, rs[0])
-	if len(ocs) != 2 {
-		return false, nil
+	ja := &spec.Job{ID: 1, Kind: "multi", Calls: []spec.Call{c}, Res: []spec.Resolution{a}, Budgets: cx.Budgets, WantFull: full}
+	jb := &spec.Job{ID: 2, Kind: "multi", Calls: []spec.Call{c}, Res: []spec.Resolution{b}, Budgets: cx.Budgets, WantFull: full}
+	two := *cx.simFresh
+	two.N = 2
+	rs := two.Run([]*spec.Job{ja, jb}, nil)
+	var ocs []spec.Outcome
+	for _, r := range rs {
+		o := cx.multiOutcomes(cx.simFresh, r)
+		if len(o) != 1 {
+			return false, nil
+		}
+		ocs = append(ocs, o[0])
 	}
 	for _, o := range ocs {
 		if o.Verdict == "HARNESS" || o.Verdict == "TIMEOUT" {
@@ -261,6 +269,33 @@ func (cx *Ctx) c07Attribute(job *spec.Job, j int) {
 	c := job.Calls[0]
 	r0, rj := job.Res[0], job.Res[j]
 	deadline := time.Now().Add(45 * time.Second)
+
+	// The K resolutions of a multi job run one after the other in one worker process. If the two resolutions agree
+	// when each runs in a fresh process, the difference seen came from the process history, not from the resolution.
+	if d, _ := cx.differs(c, r0, rj, false); !d {
+		calls := make([]spec.Call, j+1)
+		for i := range calls {
+			calls[i] = c
+		}
+		if v, rf, key, what := cx.historyViolatesRes(calls, job.Res[:j+1]); v {
+			if cx.hasViolation(key) {
+				cx.report(key, what, nil)
+				return
+			}
+			// fewest repetitions that still show it
+			for n := 2; n <= j; n++ {
+				if v2, rf2, key2, what2 := cx.historyViolatesRes(calls[:n], append(append([]spec.Resolution{}, job.Res[:n-1]...), job.Res[j])); v2 {
+					rf, key, what = rf2, key2, what2
+					break
+				}
+			}
+			cx.report(key, what, rf)
+			return
+		}
+		cx.trouble("Layout(%s; %s) gave different results under two resolutions within one process but not in fresh processes, and the repetition does not reproduce as a history",
+			edgesText(c.Edges), optsText(c.Opts))
+		return
+	}
 
 	// clock / entropy only?
 	plain := rj
@@ -290,7 +325,7 @@ func (cx *Ctx) c07Attribute(job *spec.Job, j int) {
 		return
 	}
 	pj := &spec.Job{ID: 1, Kind: "multi", Calls: []spec.Call{c}, Res: []spec.Resolution{mo}, Budgets: cx.Budgets, RecordPerms: true}
-	one := *cx.sim
+	one := *cx.simFresh
 	one.N = 1
 	prs := one.Run([]*spec.Job{pj}, nil)
 	pocs := cx.multiOutcomes(cx.sim, prs[0])
@@ -348,7 +383,7 @@ func (cx *Ctx) c07Attribute(job *spec.Job, j int) {
 
 func (cx *Ctx) c07Report(c spec.Call, r0, rj spec.Resolution) {
 	job := spec.Job{ID: 0, Kind: "multi", Calls: []spec.Call{c}, Res: []spec.Resolution{r0, rj}, Budgets: cx.Budgets, WantFull: true}
-	one := *cx.sim
+	one := *cx.simFresh
 	one.N = 1
 	rs := one.Run([]*spec.Job{&job}, nil)
 	v, key, what, fp := cx.oracleResolutions(rs)
@@ -356,7 +391,7 @@ func (cx *Ctx) c07Report(c spec.Call, r0, rj spec.Resolution) {
 		cx.trouble("a shrunk C07 violation did not reproduce (edges %s)", edgesText(c.Edges))
 		return
 	}
-	rf := &ReplayFile{Property: "C07", Oracle: "c07.resolutions", Key: key, What: what, Jobs: []ReplayJob{{Pool: "sim", Job: job}}, Expect: fp}
+	rf := &ReplayFile{Property: "C07", Oracle: "c07.resolutions", Key: key, What: what, Jobs: []ReplayJob{{Pool: "simfresh", Job: job}}, Expect: fp}
 	cx.report(key, what, rf)
 }
 
@@ -454,7 +489,17 @@ func (cx *Ctx) c07Histories(r *rng, n int, gc genCfg) map[string]any {
 }
 
 func (cx *Ctx) historyViolates(calls []spec.Call) (bool, *ReplayFile, string, string) {
-	job := spec.Job{ID: 0, Kind: "history", Calls: calls, Res: []spec.Resolution{{Adv: "identity"}}, Budgets: cx.Budgets, WantFull: true}
+	return cx.historyViolatesRes(calls, nil)
+}
+
+// historyViolatesRes: res (optional) gives one resolution per call; the reference of call i runs alone, in a fresh
+// process, under the same resolution, so a difference can only come from the history.
+func (cx *Ctx) historyViolatesRes(calls []spec.Call, res []spec.Resolution) (bool, *ReplayFile, string, string) {
+	hres := []spec.Resolution{{Adv: "identity"}}
+	if len(res) == len(calls) {
+		hres = res
+	}
+	job := spec.Job{ID: 0, Kind: "history", Calls: calls, Res: hres, Budgets: cx.Budgets, WantFull: true}
 	rj := []ReplayJob{{Pool: "simfresh", Job: job}}
 	for i := range calls {
 		c := calls[i]
@@ -462,7 +507,11 @@ func (cx *Ctx) historyViolates(calls []spec.Call) (bool, *ReplayFile, string, st
 			c = calls[*c.SameAs]
 			c.SameAs = nil
 		}
-		rj = append(rj, ReplayJob{Pool: "simfresh", Job: spec.Job{ID: i + 1, Kind: "multi", Calls: []spec.Call{c}, Res: []spec.Resolution{{Adv: "identity"}}, Budgets: cx.Budgets, WantFull: true}})
+		r := spec.Resolution{Adv: "identity"}
+		if len(res) == len(calls) {
+			r = res[i]
+		}
+		rj = append(rj, ReplayJob{Pool: "simfresh", Job: spec.Job{ID: i + 1, Kind: "multi", Calls: []spec.Call{c}, Res: []spec.Resolution{r}, Budgets: cx.Budgets, WantFull: true}})
 	}
 	rf := &ReplayFile{Property: "C07", Oracle: "c07.history", Jobs: rj}
 	v, key, what, fp := cx.evalReplay(rf)
